@@ -36,7 +36,7 @@ EXTENDS Integers, Sequences, FiniteSets, TLC
 CONSTANTS ToFixedSetsStatic, CounterIsStatic, TypeIdByFirstUse, AddressInOutput, DefinesPersist
 
 Names == {"P", "Q"}
-Kinds == {"create", "print", "tofixed", "fixedprint", "fmtfixed", "counter", "define", "usedef", "defuse",
+Kinds == {"create", "print", "evalprint", "tofixed", "fixedprint", "fmtfixed", "counter", "define", "usedef", "defuse",
           "setg", "readg", "loadcfg", "readcfg", "typeorder", "collstr", "objstr"}
 
 Fresh == [alive |-> FALSE, dec |-> -1, ctr |-> 0, defs |-> 0, glob |-> 0, cfg |-> 0, types |-> <<>>, objs |-> 0, ops |-> 0]
@@ -67,6 +67,8 @@ Apply(w, who, s) ==
                              !.alloc = w.alloc + 1],
              out |-> <<"created">>]
       [] s.k = "print" -> [w |-> w, out |-> <<"num " \o Fmt(dec)>>]
+      \* a number formatted while the text is preprocessed (__EVAL), i.e. before the VM executes anything: same mode
+      [] s.k = "evalprint" -> [w |-> w, out |-> <<"evalnum " \o Fmt(dec)>>]
       [] s.k = "tofixed" -> [w |-> SetDec(w, s.n), out |-> <<>>]
       \* toFixed n; print; toFixed -1 in ONE statement (atomic at statement granularity)
       [] s.k = "fixedprint" -> [w |-> SetDec(w, -1), out |-> <<"num " \o Fmt(s.n)>>]
